@@ -235,14 +235,49 @@ def extreme_profile(rng, nz, mapping, fine):
     return prof + [air]
 
 
+RECUR_PATTERNS = {3: [[0, 1, 0]],
+                  4: [[0, 1, 0, 1], [0, 0, 1, 0], [0, 1, 0, 2], [0, 1, 0, 0], [2, 0, 1, 0]],
+                  5: [[0, 1, 0, 2, 3], [0, 0, 1, 0, 2], [0, 1, 0, 1, 0], [0, 1, 2, 1, 3], [0, 1, 1, 0, 2]],
+                  6: [[0, 1, 0, 0, 2, 3], [0, 1, 2, 0, 1, 2], [0, 0, 1, 1, 0, 2]]}
+
+
+def recurring_pattern(rng, nz):
+    """Symbols per layer (bottom -> top) in which the same symbol occurs in two NON-adjacent
+    layers: A B A, A B A B, A A B A, background / resistor / background / sea / air, ..."""
+    nz = max(3, min(nz, 6))
+    return list(rng.choice(RECUR_PATTERNS[nz]))
+
+
+def pattern_values(rng, pattern, mapping, mapped=True):
+    pal = (PALETTE_LOG if mapping.startswith('L') else PALETTE_POS) if mapped else PALETTE_POS
+    vals = rng.sample(pal, max(pattern) + 1)
+    return np.array([vals[i] for i in pattern])
+
+
 def rand_model(rng, grid, mapping=None, case=None, lateral_invariant=False, layered_ok=False,
-               extreme=False, nearly=False):
+               extreme=False, nearly=False, pattern=None):
     import emg3d
     shape = tuple(grid.shape_cells)
     mapping = mapping or rng.choice(MAPS)
     if case is None:
         case = rng.choice(['isotropic', 'VTI'] if layered_ok else ['isotropic', 'HTI', 'VTI', 'triaxial'])
 
+    if pattern is not None:
+        # one column for all cells; EVERY property repeats its values in the non-adjacent layers
+        # the pattern prescribes (its own values per symbol); merge=True may only combine ADJACENT
+        # layers of identical properties
+        kw = {'property_x': np.zeros(shape) + pattern_values(rng, pattern, mapping)[None, None, :]}
+        if case in ('HTI', 'triaxial'):
+            kw['property_y'] = np.zeros(shape) + pattern_values(rng, pattern, mapping)[None, None, :]
+        if case in ('VTI', 'triaxial'):
+            kw['property_z'] = np.zeros(shape) + pattern_values(rng, pattern, mapping)[None, None, :]
+        for nm in ('mu_r', 'epsilon_r'):
+            r = rng.random()
+            if r < 0.25:
+                kw[nm] = np.zeros(shape) + pattern_values(rng, pattern, mapping, False)[None, None, :]
+            elif r < 0.4:
+                kw[nm] = np.ones(shape) * rng.choice([1.0, 2.0])
+        return emg3d.Model(grid, mapping=mapping, **kw), kw, mapping, case
     if extreme:
         # one column for all cells; property_z = 2 x property_x (log maps: + 0.5) below the air, so
         # that equal / nearly equal / distinct neighbours coincide in both; mu_r constant
@@ -385,6 +420,25 @@ def gen_extreme_extract_case(rng, k):
                 p1=rand_point(rng, grid, hs, org), merge=True, malformed=None, extreme=True, nearly=nearly)
 
 
+def gen_recurring_extract_case(rng, k):
+    """merge=True on a laterally invariant column whose layer values recur in NON-adjacent
+    layers (A B A, A B A B, A A B A, ...); six maps x methods round-robin, iso/HTI/VTI/triaxial,
+    optional mu_r / epsilon_r following the same pattern."""
+    mapping = MAPS[k % len(MAPS)]
+    method = ['midpoint', 'prism', 'cylinder', 'midpoint'][(k // len(MAPS)) % 4]
+    nz = 3 + (k % 4)
+    grid, hs, org = rand_grid(rng, (3, 3, nz), (1, 1, nz))
+    pattern = recurring_pattern(rng, nz)
+    model, kw, mapping, case = rand_model(rng, grid, mapping=mapping, lateral_invariant=True, pattern=pattern)
+    ellipse = None
+    if method != 'midpoint':
+        ellipse = rand_ellipse(rng, hs)
+        ellipse['radius'] = float(max(sum(hs[0]), sum(hs[1])))      # a non-empty selection
+    return dict(hs=hs, org=org, model=model, mapping=mapping, case=case, lname=mapping.startswith('L'),
+                method=method, ellipse=ellipse, p0=rand_point(rng, grid, hs, org),
+                p1=rand_point(rng, grid, hs, org), merge=True, malformed=None, recurring=pattern)
+
+
 def extract_case_coq(c, tag):
     model = c['model']
     nx, ny, nz = model.shape
@@ -439,6 +493,8 @@ def compare_extract(c, m, dis, snap=None, history=None):
                  hy=c['hs'][1], hz=c['hs'][2], origin=c['org'], profile_x_at_first_column=snap['profile_x'])
     if history is not None:
         brief['history'] = history
+    if c.get('recurring'):
+        brief['recurring_pattern'] = c['recurring']
     icode = snap['code']
     if icode != code:
         dis.append({'what': 'extract_1d error class differs from the model', 'case': brief,
@@ -569,6 +625,7 @@ def run_extract(ctx, n, dis, hist):
     rng = ctx.rng
     cases = [gen_extract_case(rng, ctx.thorough) for _ in range(n)]
     cases += [gen_extreme_extract_case(rng, k) for k in range(72 if ctx.thorough else 24)]
+    cases += [gen_recurring_extract_case(rng, k) for k in range(72 if ctx.thorough else 24)]
     n = len(cases)
     per = 20
     files = []
@@ -594,6 +651,8 @@ def run_extract(ctx, n, dis, hist):
             hist['map:' + c['mapping']] = hist.get('map:' + c['mapping'], 0) + 1
             if c['merge'] and c['lname'] and np.all(c['model'].property_x[:, :, 0] == -1.0):
                 hist['extract:merge,top=-1'] = hist.get('extract:merge,top=-1', 0) + 1
+            if c.get('recurring'):
+                hist['extract:recurring-layers,merge'] = hist.get('extract:recurring-layers,merge', 0) + 1
             if c.get('extreme'):
                 key = 'extract:extreme-range,merge,nearly-equal' + (',last-bits' if c['nearly'] else '')
                 hist[key] = hist.get(key, 0) + 1
@@ -681,25 +740,33 @@ def rand_survey(rng, grid, hs, org, nsrc, nrec, nfreq, with_data, force_relative
 SIM_METHODS = ['receiver', 'cylinder', 'source', 'prism', 'midpoint', 'cylinder']
 
 
-def gen_sim_case(rng, thorough, grad, k=0, extreme=False):
+def gen_sim_case(rng, thorough, grad, k=0, extreme=False, recurring=False):
     import emg3d
     # methods round-robin; two of three rounds on laterally varying models with >= 2 x 2 columns
-    li = (k // len(SIM_METHODS)) % 3 == 2 or extreme
+    li = (k // len(SIM_METHODS)) % 3 == 2 or extreme or recurring
     method = SIM_METHODS[k % len(SIM_METHODS)]
     single = method in ('midpoint', 'source', 'receiver')
+    pattern = None
     if extreme:
         # merge=True on a column with extreme dynamic range (air on top), maps round-robin
         grid, hs, org = rand_grid(rng, (3, 3, 6), (1, 1, 3))
         mapping = MAPS[k % len(MAPS)]
+    elif recurring:
+        # merge=True on a column whose values recur in non-adjacent layers, maps round-robin
+        nz = 3 + (k % 3)
+        grid, hs, org = rand_grid(rng, (3, 3, nz), (1, 1, nz))
+        mapping = MAPS[(k + 1) % len(MAPS)]
+        pattern = recurring_pattern(rng, nz)
     else:
         grid, hs, org = rand_grid(rng, (5, 5, 4), (1, 1, 2) if li else (2, 2, 2))
         mapping = rng.choice(MAPS)
     model, kw, mapping, case = rand_model(rng, grid, mapping=mapping, layered_ok=True,
-                                          lateral_invariant=li, extreme=extreme, nearly=extreme and single)
+                                          lateral_invariant=li, extreme=extreme, nearly=extreme and single,
+                                          pattern=pattern)
     lopts = {'method': method}
     if method in ('prism', 'cylinder'):
         lopts['ellipse'] = rand_ellipse(rng, hs)
-    if extreme or ((li or single) and (rng.random() < 0.4 or (grad and single and k % 2 == 0))):
+    if extreme or recurring or ((li or single) and (rng.random() < 0.4 or (grad and single and k % 2 == 0))):
         lopts['merge'] = True
     with_data = grad or rng.random() < 0.6
     survey, pattern = rand_survey(rng, grid, hs, org, rng.randint(1, 2), rng.randint(1, 3 if grad else 4),
@@ -710,7 +777,7 @@ def gen_sim_case(rng, thorough, grad, k=0, extreme=False):
                                tqdm_opts=False, gridding='same', verb=-1)
     return dict(hs=hs, org=org, model=model, mapping=mapping, case=case, lname=mapping.startswith('L'),
                 lopts=sim.layered_opts, survey=survey, sim=sim, pattern=pattern, grad=grad, li=li,
-                extreme=extreme)
+                extreme=extreme or recurring, recurring=pattern)
 
 
 def sim_brief(c):
@@ -723,7 +790,7 @@ def sim_brief(c):
                            for r in sv.receivers.values()],
                 frequencies=[float(f) for f in sv.frequencies.values()], observed=c['pattern'],
                 hx=c['hs'][0], hy=c['hs'][1], hz=c['hs'][2], origin=c['org'],
-                history=c.get('history'), profile_x_at_first_column=c['model'].property_x[0, 0, :].tolist())
+                history=c.get('history'), recurring_pattern=c.get('recurring'), profile_x_at_first_column=c['model'].property_x[0, 0, :].tolist())
 
 
 def common_defs(c, tag, lg, pw, bw):
@@ -1053,6 +1120,8 @@ def run_sims(ctx, n, ngrad, dis, hist):
     cases = [gen_sim_case(rng, ctx.thorough, grad=(k < ngrad), k=k) for k in range(n)]
     cases += [gen_sim_case(rng, ctx.thorough, grad=False, k=k, extreme=True)
               for k in range(18 if ctx.thorough else 6)]
+    cases += [gen_sim_case(rng, ctx.thorough, grad=False, k=k, recurring=True)
+              for k in range(18 if ctx.thorough else 6)]
     n = len(cases)
     per = 4
     files = []
@@ -1145,7 +1214,9 @@ def run_sims(ctx, n, ngrad, dis, hist):
                     hist['sim:merge+gradient'] = hist.get('sim:merge+gradient', 0) + 1
             if c['lname'] and np.all(c['model'].property_x[:, :, 0] == -1.0):
                 hist['sim:top=-1'] = hist.get('sim:top=-1', 0) + 1
-            if c['extreme']:
+            if c.get('recurring'):
+                hist['sim:recurring-layers,merge'] = hist.get('sim:recurring-layers,merge', 0) + 1
+            elif c['extreme']:
                 hist['sim:extreme-range,merge'] = hist.get('sim:extreme-range,merge', 0) + 1
             if len(dis) == nd:
                 seen.add(key)
@@ -1236,7 +1307,15 @@ def search_case(seed, thorough=False, skip=()):
         k = rng.randint(1, model.shape[2] - 1)
         for nm in model._def_properties:
             getattr(model, nm)[:, :, k] = getattr(model, nm)[:, :, k - 1]
-    if (seed // 4) % 2 == 0:
+    recur = (seed // 8) % 2 == 0
+    if recur:
+        # the same values in two NON-adjacent layers (A B A, A B A B, A A B A, ...), every property
+        # with its own values but the same pattern: merge=True may only combine adjacent layers
+        pat = recurring_pattern(rng, model.shape[2])
+        pat = (pat + pat)[:model.shape[2]]
+        for nm in model._def_properties:
+            getattr(model, nm)[:, :, :] = pattern_values(rng, pat, mapping, nm.startswith('property'))[None, None, :]
+    if (seed // 4) % 2 == 0 and not recur:
         # extreme dynamic range: air on top (2e14 Ohm.m, 1e-14 S/m, ...), below it distinct, equal and
         # nearly equal neighbours; property_z = 2 x property_x (log maps + 0.5), mu_r / epsilon_r constant
         prof = np.array(extreme_profile(rng, model.shape[2], mapping, False))
@@ -1251,6 +1330,8 @@ def search_case(seed, thorough=False, skip=()):
     vti = case == 'VTI'
     base = dict(seed=seed, mapping=mapping, case=case, hx=hs[0], hy=hs[1], hz=hs[2], origin=org,
                 profile_x=model.property_x[0, 0, :].tolist())
+    if recur:
+        base['recurring_pattern'] = pat
     survey, pattern = rand_survey(rng, grid, hs, org, rng.randint(1, 2), rng.randint(1, 3), rng.randint(1, 2),
                                   with_data=True, force_relative=True)
     base['observed'] = pattern
